@@ -38,6 +38,7 @@ def runs(tier):
         ("pairwise distinct weights with tied paths: G(4) x PM, G(5) with at most 6 edges x PM (all assignments of 1..m)", [["--n", 4, "--alpha", "PM"], ["--n", 5, "--alpha", "PM", "--max-m", 6]]),
         ("blob grammar K=3,T=2 x patterns U, M2, M3", [["--grammar", "blobs:3:2", "--alpha", a] for a in ("U", "M2", "M3")]),
         ("dense families x U", [["--families", "K:6,K:7,wheel:6,prism:4,petersen,Kb:3:4,grid:3:4,cube:3", "--alpha", "U"]]),
+        ("dense families x menu Q36x100 (100 pseudo-random dyadic weightings, quarters)", [["--families", "K:6,K:7,Kp:7:1,wheel:7,Kb:3:4", "--alpha", "Q36x100", "--wchunks", 4]]),
         ("symmetric families (antiprisms, prisms, Moebius ladders, ...) under 60 renumberings x U and under 30 renumberings x M2",
          [["--families", FAMS_SYM, "--relabel", 60, "--alpha", "U"], ["--families", FAMS_SYM, "--relabel", 30, "--alpha", "M2"]]),
         ("G(6) x A2, graphs with >= 12 edges, mcb_sva_signed (support vectors with several entries: hidden-edge heuristic)", [["--n", 6, "--alpha", "A2", "--min-m", 12, "--variants", "signed"]]),
